@@ -33,6 +33,8 @@ fn contents() -> Vec<String> {
         "\r\n".into(),
         "a\n\nb \n".into(),
         "\u{feff}abc\n".into(), // starts with a byte-order mark: content like any other
+        // more than 8 KiB, with the CR of a CRLF as the last byte of the first 8 KiB
+        format!("{}\r\nsecond line\r\nthird\r\n{}\r\n", "a".repeat(8191), "b".repeat(8200)),
     ]
 }
 
@@ -339,7 +341,7 @@ impl Check for C20 {
     }
     fn rule(&self) -> String {
         "Exhaustive over the pools: UPDATE_GOLDEN in {unset, \"\", \"1\", \"0\", \"yes\"} x golden file in {absent, 15 contents: empty, with and without final \
-         newline, CRLF, mixed CRLF/LF, non-ASCII, 120 lines (LF and CRLF), bare CR inside a line, CR at end of file, CR CR LF, lone newline, trailing spaces, leading byte-order mark} x `got` \
+         newline, CRLF, mixed CRLF/LF, non-ASCII, 120 lines (LF and CRLF), bare CR inside a line, CR at end of file, CR CR LF, lone newline, trailing spaces, leading byte-order mark, 16 KiB with a CRLF across the 8 KiB mark} x `got` \
          in {the content CRLF-normalised, un-normalised, plus / minus a final newline, trailing space, all CR stripped, LF->CRLF, first / last code point changed, leading byte-order mark stripped, empty, \
          unrelated}; plus, for 4 goldens, the variable switched between Golden::new and Golden::assert (\"1\"->unset, unset->\"1\", \"1\"->\"\", \"\"->\"yes\": what assert sees decides). Each combination runs the real okane-golden helper (Golden::new then assert) in a fresh process inside a fresh directory that also holds a \
          sentinel file and a neighbouring golden. Observed: exit status (0 ok / 3 new failed / 101 panic), a before/after snapshot of the directory (names, bytes, \
